@@ -8,8 +8,12 @@
 //   - a fake's Close is called at most once, and exactly once as soon as any wrapper above it has
 //     been closed by the history;
 //   - every Close after the first on the same wrapper object returns nil (also through LogClose);
-//   - W.Closed() is false while no wrapper of W's chain (ancestors, W, descendants) has been
-//     closed, and true once W.Close() has been called; other states are not asserted;
+//   - W.Closed() is false until W's own Close: it is asserted false while neither W nor a wrapper
+//     above W has been closed (closing an outer wrapper closes what it holds, so those states are not
+//     asserted) and no wrapper whose closed flag W shares has been closed (a Named*/Simulated/Stream/
+//     Buffered wrapper built directly over a Safe* wrapper of its own family keeps that wrapper as its
+//     flag holder - "WILL NOT create a new instance"; which object holds the flag is observed by
+//     identity, not modelled); it is true once W.Close() has been called;
 //   - a reader+writer pair reports closed iff both halves are: false while one half is certainly
 //     open, true when both halves are certainly closed.
 //
@@ -21,6 +25,12 @@
 // Close still has to reach the stream exactly once); closing the stream-wrapped connection is not
 // required to close the carrier, but it is not forbidden either (carrier states are not asserted
 // once anything above them has been closed).
+//
+// Construction time: a history may contain Build steps. The wrappers named in `late` are not built
+// before the history starts but by their Build step (arguments first), i.e. at any point of the life
+// of what they wrap: before it was used, after it was read/written, after it was closed through its
+// own handle, after that close failed. Wrappers still unbuilt at the end are built by the epilogue.
+// The model does not know about construction time: a wrapper that has not been closed answers false.
 package streams
 
 import (
@@ -289,6 +299,12 @@ type c19Node struct {
 
 	// per instantiation
 	obj        interface{}
+	built      bool
+	builtLate  bool     // built by a Build step of the history (or by the epilogue)
+	overClosed bool     // built when a wrapper below it had already been closed by the history
+	overFailed bool     // ... and the first Close of a wrapper below it had reported an error
+	closeErr   bool     // the first Close of this wrapper object returned an error (kept on canon)
+	shares     *c19Node // the argument wrapper whose object holds this wrapper's closed flag (nil: its own)
 	canon      *c19Node // the node owning the wrapper object (differs when NewSafeX returned its argument)
 	halfReused [2]bool  // pair only: the half held by the pair IS the argument wrapper
 	closeCalls int      // model: Close() calls made by the history on this wrapper object (kept on canon)
@@ -300,6 +316,7 @@ type c19Tree struct {
 	leaves  []*c19res
 	leafObj map[*c19res]interface{}
 	side    *c19res // `underlying` of StreamConnection wrappers: not a resource of the chain, only observed
+	late    []bool  // per node: built by a Build step of the history instead of before it (nil: none)
 }
 
 func c19NewTree(spec *c19Spec) (*c19Tree, error) {
@@ -423,11 +440,36 @@ func (t *c19Tree) instantiate() {
 		r.closes, r.reads, r.writes = 0, 0, 0
 	}
 	t.side.closes, t.side.reads, t.side.writes = 0, 0, 0
-	for i := len(t.nodes) - 1; i >= 0; i-- { // reverse pre-order: arguments before their wrapper
-		n := t.nodes[i]
+	for _, n := range t.nodes {
 		n.closeCalls = 0
 		n.canon = n
 		n.halfReused = [2]bool{}
+		n.built, n.builtLate, n.overClosed, n.overFailed, n.closeErr, n.shares = false, false, false, false, false, nil
+	}
+	for i := len(t.nodes) - 1; i >= 0; i-- { // reverse pre-order: arguments before their wrapper
+		if t.late == nil || !t.late[i] {
+			t.construct(t.nodes[i])
+		}
+	}
+}
+
+// buildable: n is unbuilt and all its arguments exist
+func (t *c19Tree) buildable(n *c19Node) bool {
+	if n.built {
+		return false
+	}
+	for _, k := range n.kidNodes {
+		if k != nil && !k.built {
+			return false
+		}
+	}
+	return true
+}
+
+// construct builds wrapper n with the real constructor over its (built) arguments and observes which
+// object holds its closed flag.
+func (t *c19Tree) construct(n *c19Node) {
+	{
 		args := make([]interface{}, len(n.kidNodes))
 		for j, k := range n.kidNodes {
 			if k != nil {
@@ -474,6 +516,47 @@ func (t *c19Tree) instantiate() {
 			n.canon = n.kidNodes[0].canon // the constructor returned its argument: same wrapper
 		}
 	}
+	n.built = true
+	if k := n.kidNodes[0]; k != nil && n.spec.C != "ReadWriteCloser" {
+		var holder interface{}
+		switch o := n.obj.(type) {
+		case *NamedConnection:
+			holder = o.Connection
+		case *BufferedInputConnection:
+			holder = o.Connection
+		case *NamedStream:
+			holder = o.ReadWriteCloserClosed
+		case *SimulatedConnection:
+			holder = o.ReadWriteCloserClosed
+		case *StreamWrappedConnection:
+			holder = o.ReadWriteCloserClosed
+		case *NamedReader:
+			holder = o.ReadCloserClosed
+		case *NamedWriter:
+			holder = o.WriteCloserClosed
+		}
+		if holder != nil && holder == k.obj {
+			n.shares = k
+		}
+	}
+	for _, x := range n.sub[1:] {
+		if x.canon != n.canon && x.canon.closeCalls > 0 {
+			n.overClosed = true
+			if x.canon.closeErr {
+				n.overFailed = true
+			}
+		}
+	}
+}
+
+// flagHolderClosed: a wrapper whose object holds n's closed flag has been closed by the history
+func (t *c19Tree) flagHolderClosed(n *c19Node) bool {
+	for s := n.canon.shares; s != nil; s = s.canon.shares {
+		if s.canon.closeCalls > 0 {
+			return true
+		}
+	}
+	return false
 }
 
 const (
@@ -508,6 +591,11 @@ func (t *c19Tree) expect(n *c19Node) (int, string) {
 		if hr == c19True && hw == c19True {
 			return c19True, "pair-closed-false-with-both-halves-closed"
 		}
+		return c19Unfixed, ""
+	}
+	// only wrappers below W have been closed: W itself has not, and nothing has closed it from above
+	if !c19AnyClosed(n.anc) && !t.flagHolderClosed(n) {
+		return c19False, "closed-true-before-own-close"
 	}
 	return c19Unfixed, ""
 }
@@ -519,12 +607,9 @@ func (t *c19Tree) half(n *c19Node, side int) int {
 		v, _ := t.expect(k)
 		return v
 	}
-	// the half is a wrapper private to the pair: it is certainly open while nothing above it
-	// (the pair, its ancestors) and nothing below it has been closed
+	// the half is a wrapper private to the pair, closed by the pair only: it is certainly open while
+	// nothing above it (the pair, its ancestors) has been closed
 	if c19AnyClosed(n.anc) || n.canon.closeCalls > 0 {
-		return c19Unfixed
-	}
-	if k != nil && c19AnyClosed(k.sub) {
 		return c19Unfixed
 	}
 	return c19False
@@ -541,13 +626,14 @@ const (
 	c19OpTryClose
 	c19OpLogClose
 	c19NumOps
+	c19OpBuild = c19NumOps // construct a `late` wrapper now; never part of an alphabet of calls
 )
 
-var c19OpNames = []string{"Read", "Write", "Close", "Closed", "String", "TryClose", "LogClose"}
+var c19OpNames = []string{"Read", "Write", "Close", "Closed", "String", "TryClose", "LogClose", "Build"}
 
 type c19Op struct {
 	N  int    `json:"n"`  // wrapper number, pre-order in the configuration (0 = outermost)
-	Op string `json:"op"` // Read | Write | Close | Closed | String | TryClose | LogClose
+	Op string `json:"op"` // Read | Write | Close | Closed | String | TryClose | LogClose | Build
 }
 
 type c19Step struct {
@@ -558,6 +644,7 @@ type c19Step struct {
 type c19Case struct {
 	Config string   `json:"config"`
 	Spec   *c19Spec `json:"spec"`
+	Late   []int    `json:"late,omitempty"` // wrappers built by a Build step (or by the epilogue) instead of before the history
 	Ops    []c19Op  `json:"ops"`
 	Text   string   `json:"history"`
 }
@@ -565,6 +652,14 @@ type c19Case struct {
 func (t *c19Tree) desc(steps []c19Step) c19Case {
 	d := c19Case{Config: t.spec.String(), Spec: t.spec, Ops: []c19Op{}}
 	var txt []string
+	for i, l := range t.late {
+		if l {
+			d.Late = append(d.Late, i)
+		}
+	}
+	if len(d.Late) > 0 {
+		txt = append(txt, fmt.Sprintf("late=%v", d.Late))
+	}
 	for _, s := range steps {
 		d.Ops = append(d.Ops, c19Op{s.n.idx, c19OpNames[s.op]})
 		txt = append(txt, fmt.Sprintf("%s#%d.%s", s.n.spec.C, s.n.idx, c19OpNames[s.op]))
@@ -590,7 +685,7 @@ type c19Runner struct {
 	buf [8]byte
 	// local counters, flushed into rec.Stat at the end (Stat takes a mutex)
 	c      [c19NumCounters]int64
-	calls  [c19NumOps]int64
+	calls  [c19NumOps + 1]int64
 	depths [8]int64
 }
 
@@ -625,6 +720,18 @@ const (
 	c19CCarrierWrappersClosedByHistory
 	c19CFirstCloseOverClosedCarrier
 	c19CClosedAssertedFalseOverClosedCarrier
+	c19CLateItems
+	c19CLateExhaustiveHistories
+	c19CLateRandomConfigurations
+	c19CLateRandomHistories
+	c19CWrappersBuiltDuringHistory
+	c19CWrappersBuiltByEpilogue
+	c19CWrappersBuiltOverClosedInner
+	c19CWrappersBuiltOverFailedInnerClose
+	c19CWrappersBuiltOverUsedInner
+	c19CClosedAssertedFalseBeforeOwnClose
+	c19CClosedAssertedFalseBuiltOverClosedInner
+	c19CFirstCloseBuiltOverClosedInner
 	c19NumCounters
 )
 
@@ -659,6 +766,18 @@ var c19CounterNames = []string{
 	"carrier_wrapper_close_calls_by_history",
 	"first_close_at_or_above_streamconnection_over_closed_carrier",
 	"closed_asserted_false_over_closed_carrier",
+	"late_exhaustive_items(configuration x late set)",
+	"late_exhaustive_histories",
+	"late_random_configurations",
+	"late_random_histories",
+	"wrappers_built_by_a_build_step",
+	"wrappers_built_by_the_epilogue",
+	"wrappers_built_over_closed_inner_wrapper",
+	"wrappers_built_over_inner_wrapper_whose_close_failed",
+	"wrappers_built_over_read_or_written_inner",
+	"closed_asserted_false_with_only_inner_wrappers_closed",
+	"closed_asserted_false_on_wrapper_built_over_closed_inner",
+	"first_close_of_wrapper_built_over_closed_inner",
 }
 
 func (r *c19Runner) flush() {
@@ -718,6 +837,32 @@ func (t *c19Tree) noteClose(r *c19Runner, n *c19Node) {
 	if n.canon.closeCalls == 0 && len(n.carriers) > 0 && t.carrierClosed(n) {
 		r.c[c19CFirstCloseOverClosedCarrier]++
 	}
+	if n.canon.closeCalls == 0 && n.overClosed {
+		r.c[c19CFirstCloseBuiltOverClosedInner]++
+	}
+}
+
+// build executes a Build step (or the epilogue's construction of a wrapper still unbuilt)
+func (t *c19Tree) build(r *c19Runner, n *c19Node, epilogue bool) {
+	t.construct(n)
+	n.builtLate = true
+	if epilogue {
+		r.c[c19CWrappersBuiltByEpilogue]++
+	} else {
+		r.c[c19CWrappersBuiltDuringHistory]++
+	}
+	if n.overClosed {
+		r.c[c19CWrappersBuiltOverClosedInner]++
+	}
+	if n.overFailed {
+		r.c[c19CWrappersBuiltOverFailedInnerClose]++
+	}
+	for _, l := range n.below {
+		if l.reads+l.writes > 0 {
+			r.c[c19CWrappersBuiltOverUsedInner]++
+			break
+		}
+	}
 }
 
 // checkLeaves: no fake closed twice; every fake below a closed wrapper closed exactly once.
@@ -749,6 +894,12 @@ func (t *c19Tree) checkClosed(r *c19Runner, n *c19Node, got bool) *c19Viol {
 	switch want {
 	case c19False:
 		r.c[c19CClosedAssertedFalse]++
+		if clause == "closed-true-before-own-close" {
+			r.c[c19CClosedAssertedFalseBeforeOwnClose]++
+		}
+		if n.overClosed {
+			r.c[c19CClosedAssertedFalseBuiltOverClosedInner]++
+		}
 		if len(n.carriers) > 0 && t.carrierClosed(n) {
 			r.c[c19CClosedAssertedFalseOverClosedCarrier]++
 		}
@@ -779,6 +930,8 @@ func (t *c19Tree) step(r *c19Runner, s c19Step) *c19Viol {
 	r.calls[s.op]++
 	panicked, site, val := vcommon.Guard(func() {
 		switch s.op {
+		case c19OpBuild:
+			t.build(r, n, false)
 		case c19OpRead:
 			if rd, ok := n.obj.(io.Reader); ok {
 				rd.Read(r.buf[:])
@@ -803,6 +956,7 @@ func (t *c19Tree) step(r *c19Runner, s c19Step) *c19Viol {
 				}
 			} else if err != nil {
 				r.c[c19CFirstCloseErrorsSeen]++
+				n.canon.closeErr = true
 			} else if t.failing(n) {
 				r.c[c19CFirstCloseNilOverFailingResource]++
 			}
@@ -823,6 +977,9 @@ func (t *c19Tree) step(r *c19Runner, s c19Step) *c19Viol {
 			if !pre {
 				t.noteClose(r, n)
 				n.canon.closeCalls++
+			}
+			if prior == 0 && !pre && err != nil {
+				n.canon.closeErr = true
 			}
 			if prior > 0 && s.op == c19OpLogClose {
 				r.c[c19CRepeatCloseResultsChecked]++
@@ -859,6 +1016,15 @@ func (t *c19Tree) run(r *c19Runner, steps []c19Step, key bool) bool {
 			upto = i + 1
 		}
 	}
+	for i := len(t.nodes) - 1; v == nil && i >= 0; i-- { // wrappers the history left unbuilt: arguments first
+		n := t.nodes[i]
+		if n.built {
+			continue
+		}
+		if panicked, site, val := vcommon.Guard(func() { t.build(r, n, true) }); panicked {
+			v = &c19Viol{n, nil, "panic@" + site + ":Build", map[string]interface{}{"panic": val, "built_by": "epilogue"}}
+		}
+	}
 	if v == nil {
 		for _, n := range t.nodes {
 			if v = t.step(r, c19Step{n, c19OpClosed}); v != nil {
@@ -891,6 +1057,10 @@ func (t *c19Tree) run(r *c19Runner, steps []c19Step, key bool) bool {
 	if t.carrierClosed(v.node) {
 		// the signing wrapper is, or stands above, a StreamConnection whose carrier was closed first
 		sig += ":over-closed-carrier"
+	}
+	if v.node.builtLate && v.node.overClosed {
+		// the signing wrapper was constructed when a wrapper below it had already been closed
+		sig += ":built-over-closed-inner"
 	}
 	obs := v.obs
 	obs["signed_by_wrapper"] = fmt.Sprintf("%s#%d", v.node.spec.C, v.node.idx)
@@ -952,6 +1122,151 @@ func (t *c19Tree) exhaust(r *c19Runner, alpha []c19Step, minLen, maxLen int, key
 		}
 	}
 	return total
+}
+
+// lateSets lists the sets of wrappers that can be built during a history: closed upwards (a wrapper
+// needs its arguments, the carrier included), not empty, and not all wrappers (with everything late
+// the first step could only be a Build, which is the same as a smaller set).
+func (t *c19Tree) lateSets() [][]bool {
+	var res [][]bool
+	n := len(t.nodes)
+	for m := 1; m < (1<<uint(n))-1; m++ {
+		ok := true
+		for i, x := range t.nodes {
+			if m&(1<<uint(i)) != 0 && x.parent != nil && m&(1<<uint(x.parent.idx)) == 0 {
+				ok = false
+			}
+		}
+		if !ok {
+			continue
+		}
+		late := make([]bool, n)
+		for i := range late {
+			late[i] = m&(1<<uint(i)) != 0
+		}
+		res = append(res, late)
+	}
+	return res
+}
+
+// exhaustLate runs every history with at least one and at most maxOps calls (from alpha, on built
+// wrappers only) into which Build steps of the late wrappers are inserted at every possible place
+// after the first call (never last: the epilogue builds what is left, so "built after everything" is
+// the history without the Build step).
+func (t *c19Tree) exhaustLate(r *c19Runner, alpha []c19Step, late []bool, maxOps int, keyLen int) int64 {
+	t.late = late
+	defer func() { t.late = nil }()
+	built := make([]bool, len(t.nodes))
+	for i := range built {
+		built[i] = !late[i]
+	}
+	var total int64
+	var steps []c19Step
+	var dfs func(ops int)
+	dfs = func(ops int) {
+		if len(steps) > 0 && steps[len(steps)-1].op != c19OpBuild {
+			t.run(r, steps, len(steps) <= keyLen)
+			total++
+		}
+		if ops < maxOps {
+			for _, a := range alpha {
+				if built[a.n.idx] {
+					steps = append(steps, a)
+					dfs(ops + 1)
+					steps = steps[:len(steps)-1]
+				}
+			}
+		}
+		if len(steps) == 0 {
+			return
+		}
+		for _, n := range t.nodes {
+			if built[n.idx] {
+				continue
+			}
+			ready := true
+			for _, k := range n.kidNodes {
+				if k != nil && !built[k.idx] {
+					ready = false
+				}
+			}
+			if !ready {
+				continue
+			}
+			built[n.idx] = true
+			steps = append(steps, c19Step{n, c19OpBuild})
+			dfs(ops)
+			steps = steps[:len(steps)-1]
+			built[n.idx] = false
+		}
+	}
+	dfs(0)
+	return total
+}
+
+// randLate draws a late set (closed upwards, not empty; may be all wrappers) and a history of l steps
+// in which Build steps are interleaved with calls on the wrappers built so far.
+func (t *c19Tree) randLate(rng c19Rand) []bool {
+	late := make([]bool, len(t.nodes))
+	mark := func(n *c19Node) {
+		for ; n != nil; n = n.parent {
+			late[n.idx] = true
+		}
+	}
+	any := false
+	for _, n := range t.nodes {
+		if rng.Intn(3) == 0 {
+			mark(n)
+			any = true
+		}
+	}
+	if !any {
+		mark(t.nodes[rng.Intn(len(t.nodes))])
+	}
+	return late
+}
+
+func (t *c19Tree) randLateHistory(rng c19Rand, late []bool, l int) []c19Step {
+	built := make([]bool, len(t.nodes))
+	nbuilt := 0
+	for i := range built {
+		built[i] = !late[i]
+		if built[i] {
+			nbuilt++
+		}
+	}
+	steps := make([]c19Step, 0, l)
+	for len(steps) < l {
+		var ready []*c19Node
+		for _, n := range t.nodes {
+			if built[n.idx] {
+				continue
+			}
+			ok := true
+			for _, k := range n.kidNodes {
+				if k != nil && !built[k.idx] {
+					ok = false
+				}
+			}
+			if ok {
+				ready = append(ready, n)
+			}
+		}
+		if len(ready) > 0 && (nbuilt == 0 || rng.Intn(4) == 0) {
+			n := ready[rng.Intn(len(ready))]
+			built[n.idx] = true
+			nbuilt++
+			steps = append(steps, c19Step{n, c19OpBuild})
+			continue
+		}
+		n := t.nodes[rng.Intn(len(t.nodes))]
+		op := c19RandOp(rng)
+		if !built[n.idx] || !t.has(n, op) {
+			continue
+		}
+		steps = append(steps, c19Step{n, op})
+	}
+	return steps
 }
 
 // ---- random configurations -------------------------------------------------------------------
@@ -1093,6 +1408,15 @@ func TestVerifC19(t *testing.T) {
 		if err != nil {
 			t.Fatal(err)
 		}
+		if len(d.Late) > 0 {
+			tr.late = make([]bool, len(tr.nodes))
+			for _, i := range d.Late {
+				if i < 0 || i >= len(tr.nodes) {
+					t.Fatalf("bad late wrapper %d", i)
+				}
+				tr.late[i] = true
+			}
+		}
 		var steps []c19Step
 		for _, o := range d.Ops {
 			op := -1
@@ -1105,6 +1429,18 @@ func TestVerifC19(t *testing.T) {
 				t.Fatalf("bad op %+v", o)
 			}
 			steps = append(steps, c19Step{tr.nodes[o.N], op})
+		}
+		// a call needs a built wrapper, a Build step an unbuilt one whose arguments exist
+		tr.instantiate()
+		for _, st := range steps {
+			if st.op == c19OpBuild {
+				if !tr.buildable(st.n) {
+					t.Fatalf("wrapper %d cannot be built at this point", st.n.idx)
+				}
+				tr.construct(st.n)
+			} else if !st.n.built {
+				t.Fatalf("call on wrapper %d before it is built", st.n.idx)
+			}
 		}
 		tr.run(r, steps, true)
 		return
@@ -1370,6 +1706,97 @@ func TestVerifC19(t *testing.T) {
 				if ok && b < 2 && c == 0 && h == 0 {
 					rec.Sample(tr.desc(steps))
 				}
+			}
+		}
+		r.flush()
+	}
+
+	// ---- construction time: wrappers built at every point of the life of what they wrap ----------
+	// exhaustive: every configuration of the two exhaustive families above with at least two wrappers
+	// x every late set x every history of 1..N calls over all seven calls with the Build steps at every
+	// possible place; N = 3 (thorough 4) for two wrappers, 2 (thorough 3) for three wrappers
+	lateSpecs := append([]*c19Spec{}, exh...)
+	lateSpecs = append(lateSpecs, c19CarrierConfigs(1, false)...)
+	lateSpecs = append(lateSpecs, c19CarrierConfigs(1, true)...)
+	for ci, spec := range lateSpecs {
+		tr, err := c19NewTree(spec)
+		if err != nil {
+			t.Fatalf("%s: %v", spec, err)
+		}
+		if len(tr.nodes) < 2 {
+			continue
+		}
+		var full []c19Step
+		for li, late := range tr.lateSets() {
+			if !mine() {
+				continue
+			}
+			if full == nil {
+				full = tr.alphabet(c19NumOps)
+			}
+			tr.late = late
+			rec.Mark(map[string]interface{}{"config": spec.String(), "family": "construction time", "late": tr.desc(nil).Late})
+			maxOps := rec.Pick(2, 3)
+			if len(tr.nodes) == 2 {
+				maxOps = rec.Pick(3, 4)
+			}
+			r.c[c19CLateExhaustiveHistories] += tr.exhaustLate(r, full, late, maxOps, 2)
+			r.c[c19CLateItems]++
+			for i, l := range late {
+				if l {
+					rec.Seen("late_built_wrapper_shape", tr.nodes[i].shape)
+				}
+			}
+			if ci%53 == 1 && li == 0 {
+				tr.late = late
+				var first *c19Node
+				for i := len(tr.nodes) - 1; i >= 0; i-- {
+					if late[i] {
+						first = tr.nodes[i]
+						break
+					}
+				}
+				rec.Sample(tr.desc([]c19Step{{tr.nodes[len(tr.nodes)-1], c19OpClose}, {first, c19OpBuild}, {first, c19OpClosed}}))
+				tr.late = nil
+			}
+		}
+		r.flush()
+	}
+
+	// random: configurations of depth <= 4 (every second one with carriers), a fresh late set and a
+	// history with interleaved Build steps per run
+	lbatches := rec.Pick(128, 1000)
+	for b := 0; b < lbatches; b++ {
+		if !mine() {
+			continue
+		}
+		rng := vcommon.NewRand(rec.Seed(), fmt.Sprintf("c19/random-late/%d", b))
+		rec.Mark(map[string]interface{}{"family": "random construction time", "batch": b})
+		for c := 0; c < configsPerBatch; c++ {
+			depth := 2 + rng.Intn(3)
+			spec := c19RandSpec(rng, 0, depth, true, c%2 == 1)
+			tr, err := c19NewTree(spec)
+			if err != nil {
+				t.Fatalf("%s: %v", spec, err)
+			}
+			tr.instantiate()
+			r.c[c19CLateRandomConfigurations]++
+			rec.StatMax("late_random_depth", int64(spec.depth()))
+			rec.StatMax("late_random_wrappers_in_configuration", int64(len(tr.nodes)))
+			for h := 0; h < perConfig; h++ {
+				l := 2 + rng.Intn(12)
+				if rng.Intn(3) == 0 {
+					l = 6 + rng.Intn(10)
+				}
+				late := tr.randLate(rng)
+				steps := tr.randLateHistory(rng, late, l)
+				tr.late = late
+				ok := tr.run(r, steps, h < keyed)
+				r.c[c19CLateRandomHistories]++
+				if ok && b < 2 && c == 0 && h == 0 {
+					rec.Sample(tr.desc(steps))
+				}
+				tr.late = nil
 			}
 		}
 		r.flush()
